@@ -1063,10 +1063,6 @@ def main(tier):
             if m.get("asn1c_rc") == 70 and "-fcompound-names" not in m["opts"] and 'Use "-fcompound-names" flag' in m.get("asn1c_out", ""):
                 run.count("skipped_name_clash_without_compound_names")       # a clean refusal with advice; the same module is checked under the other sets
                 continue
-            if m.get("asn1c_rc") == 70 and m["ic"] >= len(comp_rows(m)) and re.search(r"Can not find referenced object class \S+ column &id", m.get("asn1c_out", "")):
-                # the emitter looks for the identifier column among the first <rows> class fields only
-                run.known_finding("C18-identifier-column-beyond-rows", m["name"])
-                continue
             if not m.get("exe"):
                 run.violation("build:module", dict(replay, what="asn1c rejected a generated class/object-set module or its output does not compile"))
                 continue
